@@ -35,6 +35,22 @@ func configImmutable(c *Ctx, id string) {
 		allInstrs(fn, func(in ssa.Instruction) {
 			switch x := in.(type) {
 			case *ssa.Store:
+				// a write through a pointer the configuration holds (a *time.Time field, say), or into an element of one
+				// of its slices: a by-value copy of the struct shares both with the original
+				switch a := x.Addr.(type) {
+				case *ssa.UnOp, *ssa.Phi:
+					if cfgDerived(a, 0) {
+						n++
+						bad = append(bad, fname(fn)+": *("+w.Origin(a)+") ← "+w.Origin(x.Val)+" @"+w.pos(in.Pos()))
+					}
+					return
+				case *ssa.IndexAddr:
+					if _, isSlice := a.X.Type().Underlying().(*types.Slice); isSlice && cfgDerived(a.X, 0) {
+						n++
+						bad = append(bad, fname(fn)+": "+w.Origin(a.X)+"[…] ← "+w.Origin(x.Val)+" @"+w.pos(in.Pos()))
+					}
+					return
+				}
 				fa, ok := x.Addr.(*ssa.FieldAddr)
 				if !ok || !isCfgField(fieldOfAddr(x.Addr)) {
 					return
